@@ -34,3 +34,10 @@ def sig_kwonly(a, *, k=1, m=None):
 def echo_value(v, pad=None):
     RECEIVED.append({"v": v, "pad": pad})
     return v
+
+
+EXC_BOX = [None]  # exception the next raise_exc body raises (stepping mode runs bodies in-process)
+
+
+def raise_exc(i=0):
+    raise EXC_BOX[0]
